@@ -2595,7 +2595,7 @@ class BSP:
                 texdata = TexData(mat, Vec(ref_x, ref_y, ref_z), w, h)
                 texdata_list.append(texdata)
                 self._texdata[mat.casefold()] = texdata
-        self.lumps[BSP_LUMPS.TEXDATA].data = b''
+        # The TEXDATA lump is cleared by ParsedLump.__get__ (it is in to_clear) once everything has been parsed.
 
         for (
             sx, sy, sz, so, tx, ty, tz, to,
